@@ -252,10 +252,10 @@ class MibCompiler(object):
 
                         mibsToParse.extend(mibInfo.imported)
 
-                        if fileInfo.name in mibnames:
+                        if mibname in mibnames:
                             if mibInfo.name not in canonicalMibNames:
                                 canonicalMibNames[mibInfo.name] = []
-                            canonicalMibNames[mibInfo.name].append(fileInfo.name)
+                            canonicalMibNames[mibInfo.name].append(mibname)
 
                         debug.logger & debug.flagCompiler and debug.logger(
                             '%s (%s) read from %s, immediate dependencies: %s' % (
